@@ -4,6 +4,7 @@ import asyncio
 from asyncio import StreamReader, StreamWriter, Task, CancelledError, IncompleteReadError
 from codecs import CodecInfo
 from string import ascii_lowercase, digits
+from struct import error as StructError
 from typing import Any, Awaitable, Callable, Dict, List, Optional, Set, Tuple, Type, TypeVar, Union
 from .broker import AbstractBroker, SimpleBroker
 from .correlator import (
@@ -616,7 +617,7 @@ class ESME:
         message_class: Type[SmppMessage] = MESSAGE_TYPE_MAP[header.smpp_command]
         try:
             smpp_message: SmppMessage = message_class.from_pdu(pdu, header)
-        except ValueError:
+        except (ValueError, LookupError, StructError):
             if self._logger.isEnabledFor(ERROR):
                 self._logger.exception(
                     'Unable to parse PDU',
@@ -748,7 +749,7 @@ class ESME:
             smpp_message: SmppMessage = message_class.from_pdu(
                 pdu, header, self.default_encoding, self.custom_codecs
             )
-        except ValueError:
+        except (ValueError, LookupError, StructError):
             if self._logger.isEnabledFor(ERROR):
                 self._logger.exception(
                     'Unable to parse PDU',
